@@ -214,7 +214,11 @@ class TraceRecorder:
             return sv['open'](file, mode, *a, **kw)
 
         def w_temp(*a, **kw):
+            # what tempfile does internally to obtain the anonymous file (mkstemp + unlink of its own
+            # fresh name in the system temp directory, when O_TMPFILE is unavailable) is not part of the trace
+            n0 = len(rec.events)
             real = sv['temp'](*a, **kw)
+            del rec.events[n0:]
             h = rec._h()
             rec.events.append(('T', h))
             return _TempProxy(rec, real, h)
